@@ -9,7 +9,8 @@
    parents), which is why configurations can be handed from child to parent with their cache. *)
 From Coq Require Import List ZArith Bool Arith Lia Permutation.
 From DD Require Import Model.Circuit Model.Query Model.TwiseCfg Proofs.PassLemmas Proofs.Semantics
-  Proofs.CountsA Proofs.QueryDefs Proofs.C03Proof Proofs.TwiseBase Proofs.TwiseSem Proofs.TwiseCfgProof.
+  Proofs.CountsA Proofs.QueryDefs Proofs.Live Proofs.LiveCounts Proofs.C03Proof Proofs.TwiseBase
+  Proofs.TwiseSem Proofs.TwiseCfgProof.
 Import ListNotations.
 Open Scope Z_scope.
 
@@ -21,7 +22,12 @@ Let d := build C n.
 Notation valid := (valid C).
 Notation V := (V C).
 
-Definition LitsC (A : cfg) : Prop := forall l, In l A -> In l (lits_of C).
+(* the literals of A are LIVE leaves (reachable from the root through nodes with a non-zero count,
+   Proofs/Live.v): the complement of a live literal is not a core literal, so the core shortcut of
+   sat_propagate - relative to the ROOT, and since F22 blind to dead branches - never answers a
+   query about them; inside a dead branch it may, which is why the node lemmas below are about
+   reachable nodes *)
+Definition LitsC (A : cfg) : Prop := forall l, In l A -> LiveLit C l.
 
 Lemma no_core A : LitsC A -> existsb (makes_unsat d) A = false.
 Proof.
@@ -29,14 +35,17 @@ Proof.
   apply existsb_exists in E. destruct E as [f [Hf Hmu]].
   unfold makes_unsat in Hmu. apply andb_true_iff in Hmu. destruct Hmu as [_ Hmu].
   apply memZ_In in Hmu. change (core d) with (calculate_core C n) in Hmu.
-  unfold calculate_core in Hmu. apply filter_In in Hmu. destruct Hmu as [_ Hmu].
-  apply andb_true_iff in Hmu. destruct Hmu as [_ Hmu]. apply negb_true_iff in Hmu.
-  rewrite Z.opp_involutive in Hmu. apply has_lit_false in Hmu. exact (Hmu (HA f Hf)).
+  pose proof (wfq_wf C n HQ) as HWF.
+  exact (live_not_opposed_by_core C n (wf_idx C n HWF) (wf_nonempty C n HWF) f (HA f Hf) Hmu).
 Qed.
+
+Lemma LitsC_lits A : LitsC A -> forall l, In l A -> In l (lits_of C).
+Proof. intros HA l Hl. exact (live_lit_of C l (HA l Hl)). Qed.
 
 Lemma LitsC_range A : LitsC A -> forall l, In l A -> l <> 0 /\ inr n l.
 Proof.
-  intros HA l Hl. split; [exact (lits_of_nonzero C n HQ l (HA l Hl))|exact (lits_inr C n HQ l (HA l Hl))].
+  intros HA l Hl. pose proof (LitsC_lits A HA l Hl) as H.
+  split; [exact (lits_of_nonzero C n HQ l H)|exact (lits_inr C n HQ l H)].
 Qed.
 
 Lemma LitsC_app A B : LitsC A -> LitsC B -> LitsC (A ++ B).
@@ -55,10 +64,11 @@ Record CfgOK (r : nat) (W : list Z) (c : config) : Prop := {
   ok_st : StOK c;
 }.
 
-Lemma CfgOK_lits r W c : (r < length C)%nat -> incl W (V r) -> CfgOK r W c -> LitsC (c_decided c).
+Lemma CfgOK_lits r W c : (r < length C)%nat -> Reach C r -> incl W (V r) -> CfgOK r W c ->
+  LitsC (c_decided c).
 Proof.
-  intros Hr HW [_ Hv Hval _].
-  refine (proj1 (valid_lits C n HQ r (c_decided c) Hr _ Hval)). intros l Hl. apply HW. now apply Hv.
+  intros Hr HR HW [_ Hv Hval _].
+  refine (valid_live_lits C n HQ r (c_decided c) Hr HR _ Hval). intros l Hl. apply HW. now apply Hv.
 Qed.
 
 (* ---------- one SAT call on a state with invariant ---------- *)
@@ -84,12 +94,12 @@ Lemma valid_true r A : valid r A -> (0 <? cA C A r) = true.
 Proof. intros H. now apply Z.ltb_lt. Qed.
 
 (* update_sat_state *)
-Lemma update_spec r W c : (r < length C)%nat -> incl W (V r) -> CfgOK r W c ->
+Lemma update_spec r W c : (r < length C)%nat -> Reach C r -> incl W (V r) -> CfgOK r W c ->
   let c' := c_update d r c in
   c_lits c' = c_lits c /\ c_ndec c' = c_ndec c /\
   exists m fl P, c_st c' = Some (m, fl) /\ Inv C P m /\ incl P (c_decided c) /\ incl (c_decided c) P.
 Proof.
-  intros Hr HW Hok. pose proof (CfgOK_lits r W c Hr HW Hok) as HL.
+  intros Hr HRr HW Hok. pose proof (CfgOK_lits r W c Hr HRr HW Hok) as HL.
   destruct Hok as [Hwf Hv Hval Hst].
   pose proof (valid_live C n HQ r _ Hr Hval) as Hpos.
   unfold c_update. unfold StOK in Hst.
@@ -113,9 +123,9 @@ Proof.
     split; apply incl_refl.
 Qed.
 
-Lemma update_ok r W c : (r < length C)%nat -> incl W (V r) -> CfgOK r W c -> CfgOK r W (c_update d r c).
+Lemma update_ok r W c : (r < length C)%nat -> Reach C r -> incl W (V r) -> CfgOK r W c -> CfgOK r W (c_update d r c).
 Proof.
-  intros Hr HW Hok. destruct (update_spec r W c Hr HW Hok) as [Hl [Hn [m [fl [P [Hst [HI [H1 H2]]]]]]]].
+  intros Hr HRr HW Hok. destruct (update_spec r W c Hr HRr HW Hok) as [Hl [Hn [m [fl [P [Hst [HI [H1 H2]]]]]]]].
   assert (Hdec : c_decided (c_update d r c) = c_decided c) by (unfold c_decided; now rewrite Hl).
   destruct Hok as [Hwf Hv Hval _]. constructor.
   - destruct Hwf as [Ha Hb Hc]. constructor; rewrite ?Hl, ?Hn, ?Hdec; assumption.
@@ -125,15 +135,15 @@ Proof.
 Qed.
 
 (* the query made on the updated state *)
-Lemma query_spec_nc r W c I : (r < length C)%nat -> incl W (V r) -> CfgOK r W c ->
+Lemma query_spec_nc r W c I : (r < length C)%nat -> Reach C r -> incl W (V r) -> CfgOK r W c ->
   existsb (makes_unsat d) I = false ->
   let c1 := c_update d r c in
   let res := sat_propagate d I (c_state_of d c1) (Some r) in
   snd res = (0 <? cA C (c_decided c ++ I) r) /\
   (snd res = true -> exists P, Inv C P (fst res) /\ incl P (c_decided c ++ I) /\ incl (c_decided c ++ I) P).
 Proof.
-  intros Hr HW Hok HI. cbv zeta.
-  destruct (update_spec r W c Hr HW Hok) as [_ [_ [m [fl [P [Hst [HInv [H1 H2]]]]]]]].
+  intros Hr HRr HW Hok HI. cbv zeta.
+  destruct (update_spec r W c Hr HRr HW Hok) as [_ [_ [m [fl [P [Hst [HInv [H1 H2]]]]]]]].
   unfold c_state_of. rewrite Hst.
   pose proof (valid_live C n HQ r _ Hr (ok_valid _ _ _ Hok)) as Hpos.
   destruct (sat_call_nc r P I m Hr Hpos HInv HI) as [Hans Hinv].
@@ -147,17 +157,17 @@ Proof.
   split; intros l Hl; apply in_app_iff in Hl; apply in_app_iff; destruct Hl; auto.
 Qed.
 
-Lemma query_spec r W c I : (r < length C)%nat -> incl W (V r) -> CfgOK r W c -> LitsC I ->
+Lemma query_spec r W c I : (r < length C)%nat -> Reach C r -> incl W (V r) -> CfgOK r W c -> LitsC I ->
   let c1 := c_update d r c in
   let res := sat_propagate d I (c_state_of d c1) (Some r) in
   snd res = (0 <? cA C (c_decided c ++ I) r) /\
   (snd res = true -> exists P, Inv C P (fst res) /\ incl P (c_decided c ++ I) /\ incl (c_decided c ++ I) P).
-Proof. intros Hr HW Hok HI. apply (query_spec_nc r W c I Hr HW Hok). now apply no_core. Qed.
+Proof. intros Hr HRr HW Hok HI. apply (query_spec_nc r W c I Hr HRr HW Hok). now apply no_core. Qed.
 
 (* ---------- cover() ---------- *)
 Definition CovL (P : list config) (J : cfg) : Prop := exists c, In c P /\ incl J (c_decided c).
 
-Lemma cover_spec r W I : (r < length C)%nat -> incl W (V r) -> LitsC I ->
+Lemma cover_spec r W I : (r < length C)%nat -> Reach C r -> incl W (V r) -> LitsC I ->
   (forall l, In l I -> In (Z.abs l) W) ->
   forall P k P' res, Forall (CfgOK r W) P -> cover d r P I k = (P', res) ->
   Forall (CfgOK r W) P' /\ length P' = length P /\
@@ -168,7 +178,7 @@ Lemma cover_spec r W I : (r < length C)%nat -> incl W (V r) -> LitsC I ->
   | None => True
   end.
 Proof.
-  intros Hr HW HI HIW. pose proof (LitsC_range I HI) as HIr.
+  intros Hr HRr HW HI HIW. pose proof (LitsC_range I HI) as HIr.
   induction P as [|c P IH]; intros k P' res HP Hc.
   - cbn in Hc. injection Hc as <- <-. repeat split; auto. intros c' [].
   - inversion HP as [|? ? Hok HP']; subst. cbn [cover] in Hc.
@@ -193,10 +203,10 @@ Proof.
       - destruct res0 as [idx|]; [|exact Logic.I]. destruct G5 as [Hle [c' [Hn Hc']]]. split; [lia|].
         exists c'. split; [|exact Hc']. replace (idx - k)%nat with (S (idx - S k)) by lia. exact Hn. }
     destruct (c_conflicts c I) eqn:Ecf; [now apply (Hrec c)|].
-    pose proof (update_ok r W c Hr HW Hok) as Hok1.
-    destruct (update_spec r W c Hr HW Hok) as [Hl1 [Hn1 _]].
+    pose proof (update_ok r W c Hr HRr HW Hok) as Hok1.
+    destruct (update_spec r W c Hr HRr HW Hok) as [Hl1 [Hn1 _]].
     assert (Hdec1 : c_decided (c_update d r c) = c_decided c) by (unfold c_decided; now rewrite Hl1).
-    destruct (query_spec r W c I Hr HW Hok HI) as [Hans Hinv]. cbv zeta in Hans, Hinv.
+    destruct (query_spec r W c I Hr HRr HW Hok HI) as [Hans Hinv]. cbv zeta in Hans, Hinv.
     destruct (sat_propagate d I (c_state_of d (c_update d r c)) (Some r)) as [m' b] eqn:Eq.
     cbn [fst snd] in Hans, Hinv. destruct b; [|now apply (Hrec (c_update d r c))].
     injection Hc as <- <-.
@@ -331,6 +341,7 @@ Qed.
 Section Steps.
 Variables (r : nat) (W : list Z).
 Hypothesis Hr : (r < length C)%nat.
+Hypothesis HRr : Reach C r.
 Hypothesis HW : incl W (V r).
 
 Lemma new_config_ok I m : LitsC I -> (forall l, In l I -> In (Z.abs l) W) -> valid r I ->
@@ -363,7 +374,7 @@ Proof.
   - destruct HS as [H1 H2 H3 H4]. pose proof H3 as H3'. unfold s_iter in H3'. apply Forall_app in H3'.
     destruct H3' as [Hcomp Hpart].
     destruct (cover d r (s_part S) I 0) as [P' res] eqn:Ec.
-    destruct (cover_spec r W I Hr HW HI HIW (s_part S) 0%nat P' res Hpart Ec) as [G1 [G2 [G3 [_ G5]]]].
+    destruct (cover_spec r W I Hr HRr HW HI HIW (s_part S) 0%nat P' res Hpart Ec) as [G1 [G2 [G3 [_ G5]]]].
     assert (Hall : Forall (CfgOK r W) (s_comp S ++ P')) by (apply Forall_app; now split).
     assert (Hmono : forall (S' : sample), (forall x, In x (s_comp S ++ P') -> In x (s_iter S')) ->
                     forall J, Covers S J -> Covers S' J).
@@ -405,7 +416,7 @@ Proof.
       destruct HS as [H1 H2 H3 H4]. pose proof H3 as H3'. unfold s_iter in H3'. apply Forall_app in H3'.
       destruct H3' as [Hcomp Hpart].
       destruct (cover d r (s_part S) I 0) as [P' res] eqn:Ec.
-      destruct (cover_spec r W I Hr HW HI HIW (s_part S) 0%nat P' res Hpart Ec) as [G1 [G2 [G3 [_ G5]]]].
+      destruct (cover_spec r W I Hr HRr HW HI HIW (s_part S) 0%nat P' res Hpart Ec) as [G1 [G2 [G3 [_ G5]]]].
       assert (Hall : Forall (CfgOK r W) (s_comp S ++ P')) by (apply Forall_app; now split).
       assert (Hmono : forall (S' : sample), (forall x, In x (s_comp S ++ P') -> In x (s_iter S')) ->
                       forall J, Covers S J -> Covers S' J).
